@@ -30,7 +30,7 @@ CHUNKINGS = ["one", "small", "large", "whole"]
 
 
 def gen_cases(tier, seed):
-    reps = {"quick": 3, "thorough": 20}[tier]
+    reps = {"quick": 3, "thorough": 50}[tier]
     n = {"quick": 120, "thorough": 700}[tier]
     cases = []
     for name in streams.STRAT_NAMES:
